@@ -52,6 +52,16 @@ func c08Variant(i, v int) string {
 		return fmt.Sprintf("\n---@class DupCls\n---@field n%d number\nlocal dup%d = {}\nreturn dup%d\n", i, i, i)
 	case 15: // requires the next file by its bare name (f2 also exists as alt/f2.lua: the name index has two candidates)
 		return fmt.Sprintf("local rq%d = require(\"f%d\")\nprint(rq%d)\n", i, other, i)
+	case 16: // variant 2 (semantic warnings) two lines further down: the same text behind leading blank lines
+		return "\n\n" + c08Variant(i, 2)
+	case 17: // an annotated cross-file function
+		return fmt.Sprintf("---@param a number\n---@param b number\nfunction gf%d(a, b)\n  print(a, b)\nend\n", i)
+	case 19: // the same one line further down
+		return "\n" + c08Variant(i, 17)
+	case 18: // calls the other file's function with as many arguments as it declares
+		return fmt.Sprintf("gf%d(1, 2)\n", other)
+	case 20: // … with one argument fewer
+		return fmt.Sprintf("gf%d(1)\n", other)
 	case 12: // the empty file
 		return ""
 	case 8: // a second clean text
@@ -162,6 +172,19 @@ func runC08(res *lib.Result, tier string, seed int64, args []string) error {
 			disk["f0.lua"], files["f0.lua"] = 3, c08Variant(0, 3)
 			disk["f1.lua"], files["f1.lua"] = 0, c08Variant(1, 0)
 			disk["sub/f2.lua"], files["sub/f2.lua"] = 4, c08Variant(2, 4)
+		}
+		if hi%16 == 12 {
+			// f0 is rewritten twice on disk; the second text differs from the first only by leading blank lines
+			disk["f0.lua"], files["f0.lua"] = 0, c08Variant(0, 0)
+			disk["f1.lua"], files["f1.lua"] = 0, c08Variant(1, 0)
+			disk["sub/f2.lua"], files["sub/f2.lua"] = 0, c08Variant(2, 0)
+		}
+		if hi%16 == 14 {
+			// f0 declares an annotated function, sub/f2 calls it; f0 gets an unsaved (valid) edit that is DISCARDED by
+			// closing the document; then sub/f2 is rewritten on disk to call the function with too few arguments
+			disk["f0.lua"], files["f0.lua"] = 17, c08Variant(0, 17)
+			disk["f1.lua"], files["f1.lua"] = 0, c08Variant(1, 0)
+			disk["sub/f2.lua"], files["sub/f2.lua"] = 18, c08Variant(2, 18)
 		}
 		if hi%16 == 6 {
 			// two files declare the same class; the script moves one declaration down a line
@@ -289,6 +312,12 @@ func runC08(res *lib.Result, tier string, seed int64, args []string) error {
 		if hi%16 == 0 {
 			script = []scripted{{2, 9, -2}}
 		}
+		if hi%16 == 12 {
+			script = []scripted{{0, 9, 2}, {0, 9, 16}}
+		}
+		if hi%16 == 14 {
+			script = []scripted{{0, 0, 0}, {0, 2, 19}, {0, 7, 0}, {2, 9, 20}}
+		}
 		if hi%16 == 4 {
 			script = []scripted{{0, 0, 0}, {0, 10, 0}, {0, 2, 0}, {0, 7, 0}}
 		}
@@ -307,7 +336,7 @@ func runC08(res *lib.Result, tier string, seed int64, args []string) error {
 			}
 			script = []scripted{{a, 0, 0}, {a, 2, []int{1, 6, 7}[r.Intn(3)]}, {a, 7, 0}, {b, 0, 0}, {b, 2, []int{0, 8}[r.Intn(2)]}, {b, 5, 0}}
 		}
-		if hi%8 == 5 || hi%16 == 1 || hi%16 == 2 || k1Hist || hi%16 == 6 || hi%16 == 0 || hi%16 == 4 {
+		if hi%8 == 5 || hi%16 == 1 || hi%16 == 2 || k1Hist || hi%16 == 6 || hi%16 == 0 || hi%16 == 4 || hi%16 == 12 || hi%16 == 14 {
 			nEv = r.Intn(2) // the comparison with a fresh server follows (almost) directly
 		} else if hi%3 == 1 {
 			nEv = 1 + r.Intn(4) // short histories: the state right after an event is compared with a fresh server
